@@ -1,4 +1,6 @@
 """C11 - stored events read back unchanged; the reader delivers exactly the asked window (decided clauses)."""
+import re
+
 from .. import astu, ir, project
 from ..framework import Report, where
 from ..project import AnalysisBroken
@@ -82,7 +84,7 @@ def run(tier, seed):
     rep.add('RECORD.siblings', 'event:particles', where(es), 'event::store writes each particle with particle::store (%s)' % ev_calls,
             len(ev_calls) == 1 and '@loop' in ([g for t, g in ev_w if t.startswith('call:store')][0] or ''))
     rep.add('RECORD.siblings', 'driver:store', where(dr), 'the driver writes the id and then calls event::store with STORE_EVENT_TIME',
-            any(t.startswith('call:store') for t, g in dr_w) and drv_fields[:1] == ['ievent'])
+            _id_then_store(dr_w))
     # ---- precision
     for fn, stream in ((es, 'out_'), (ps, 'out_'), (dr, 'fevent')):
         ops = records.inserted_operands(fn, stream)
@@ -464,3 +466,16 @@ def _skips_empty(rep, prog):
             rep.add('READER.skips-empty', '%s:%d' % (f['name'], nopen), where(f, o.line),
                     '%s: the stream %s opened here is left on a record or closed' % (f['name'], stream[:50]), ok, why)
     rep.floor('READER.skips-empty', nopen, 1)
+
+
+def _id_then_store(dr_w):
+    """the one plain value the driver inserts into the event stream inside the loop is an identifier (the record id, whatever its
+    name) and the next statement on that stream's record is event::store(stream, flags)"""
+    plain = [i for i, (t, g) in enumerate(dr_w) if not t.startswith('call:')]
+    if len(plain) != 1:
+        return False
+    i = plain[0]
+    t, g = dr_w[i]
+    if re.fullmatch(r'[A-Za-z_]\w*', t) is None or '@loop' not in (g or ''):
+        return False
+    return i + 1 < len(dr_w) and dr_w[i + 1][0].startswith('call:store(') and '@loop' in (dr_w[i + 1][1] or '')
